@@ -16,7 +16,7 @@ from typing import Any, Dict, List, Optional, Tuple
 
 from hypothesis import strategies as st
 
-from vlib import fsaudit, mmgen, runner, sut
+from vlib import fsaudit, mmgen, runner, sut, tbparse
 
 PID = "C23"
 RULE = (
@@ -152,12 +152,8 @@ class Exec:
             head = [SCRIPT] if os.path.exists(SCRIPT) else [PY, "-m", "aas_core_codegen.main"]
             p = subprocess.run(head + argv, env=dict(os.environ, TMPDIR=str(tmp), PYTHONHASHSEED="0"),
                                stdout=subprocess.PIPE, stderr=subprocess.PIPE, text=True, cwd=str(self.base))
-            if "Traceback (most recent call last)" in p.stderr:
-                frames = re.findall(r'File "[^"]*/aas_core_codegen/([^"]+)", line \d+, in (\S+)', p.stderr)
-                last = p.stderr.strip().splitlines()[-1]
-                typ = re.split(r"[:\s]", last, 1)[0].split(".")[-1]
-                where = f"{frames[-1][0]}:{frames[-1][1]}" if frames else "?"
-                return (f"exception:{typ}@{where}", "", ""), []
+            if tbparse.is_traceback(p.stderr):
+                return ("exception:" + tbparse.bucket_of_traceback(p.stderr), "", ""), []
             return (p.returncode, self._norm(p.stdout, out, model, snip), self._norm(p.stderr, out, model, snip)), []
         old_tmp, old_env = tempfile.tempdir, os.environ.get("TMPDIR")
         tempfile.tempdir = str(tmp)
@@ -362,7 +358,7 @@ class Exec:
             self.swap_output_dir()
 
 
-FRONT_END_ERRORS = ("Failed to parse", "One or more unexpected imports", "Failed to construct the symbol", "Failed to translate the parsed")
+FRONT_END_ERRORS = ("Failed to resolve the implementation-specific snippets", "Failed to parse", "One or more unexpected imports", "Failed to construct the symbol", "Failed to translate the parsed")
 
 
 def cycle_steps(i: int, target: str, how: str, arg: int, via: str) -> List[Dict[str, Any]]:
